@@ -48,6 +48,16 @@ func VerifConsumptionCID(obj interface{}) (CID, bool) {
 	return 0, false
 }
 
+// VerifConsumptionStream returns the stream a consumption belongs to, when obj
+// (as passed to a schedule point) is a consumption. Only meaningful while the
+// consumption is attached (e.g. at "join.registered").
+func VerifConsumptionStream(obj interface{}) *Stream {
+	if c, ok := obj.(*consumption); ok {
+		return c.stream
+	}
+	return nil
+}
+
 // VerifQueueLen returns the backlog of the consumer with the given id.
 func VerifQueueLen(s *Stream, cid CID) int {
 	cs := &s.consumptions
